@@ -280,15 +280,36 @@ class TranslatorC(Translator):
                         arg1
                     )
                 else:
-                    op = {
-                        "<<": "lshift",
-                        ">>": "rshift",
-                        "a>>": "a_rshift"
-                    }
-                    out = "bignum_%s(%s, bignum_to_uint64(%s))" % (
-                        op[expr.op], arg0, arg1
-                    )
+                    if expr.op == "a>>":
+                        out = "bignum_a_rshift(%s, %d, bignum_to_uint64(%s))" % (
+                            arg0, expr.size, arg1
+                        )
+                        # Sign propagation
+                        saturated = self.from_expr(
+                            ExprCond(
+                                expr.args[0].msb(),
+                                ExprInt(size2mask(expr.size), expr.size),
+                                ExprInt(0, expr.size)
+                            )
+                        )
+                    else:
+                        op = {
+                            "<<": "lshift",
+                            ">>": "rshift",
+                        }
+                        out = "bignum_%s(%s, bignum_to_uint64(%s))" % (
+                            op[expr.op], arg0, arg1
+                        )
+                        saturated = self.from_expr(ExprInt(0, expr.size))
                     out = "bignum_mask(%s, %d)"% (out, expr.size)
+                    # The shift count is a big number: it may not fit the int
+                    # taken by the bignum shifts
+                    out = "(bignum_is_inf_unsigned(%s, %s)?%s:%s)" % (
+                        arg1,
+                        self.from_expr(ExprInt(expr.size, expr.size)),
+                        out,
+                        saturated
+                    )
                 return out
 
             elif is_associative(expr):
